@@ -280,6 +280,15 @@ pub fn run(tier: &str) -> i32 {
             rep.violation(k, d, specs[i].to_json());
         }
     }
+    for comp in 1..=4u8 {
+        let f = foreign::mixed_shorthand(comp);
+        let ids: Vec<u64> = f.expected.keys().copied().collect();
+        for r in ranges(&ids) {
+            if let Some((k, d)) = readers_agree(&f.bytes, r, &ids) {
+                rep.violation(format!("{k}/mixed-shorthand"), d, json!({"kind":"mixed-shorthand","comp":comp}));
+            }
+        }
+    }
     // rejection inputs: both sides must refuse
     let mut nrej = 0u64;
     for comp in 1..=4u8 {
